@@ -143,3 +143,9 @@ void h_for_each_l0(void) {
   for_each_common(in_n0, in_n1, 0);
   CANARY();
 }
+void h_for_each_l0only(void) {
+  IN_SIZE(in_n0);
+  ASSUME(in_n0 <= GETF0);
+  for_each_common(in_n0, 0, 0);
+  CANARY();
+}
